@@ -5265,9 +5265,6 @@ func (a *Agent) TaskDispatch(RequestID uint32, CommandID uint32, Parser *parser.
 													break
 												}
 											}
-
-											// also forget the persisted link to the previous parent
-											teamserver.LinkRemove(DemonInfo.Pivots.Parent, DemonInfo, false)
 										}
 
 										DemonInfo.Active = true
